@@ -89,11 +89,23 @@ def build(cfg, rng, natural=False):
             return gpytorch.distributions.MultivariateNormal(self.mean_module(x), self.covar_module(x))
 
     model = GP().double()
-    lik = gpytorch.likelihoods.GaussianLikelihood(
-        noise_prior=gpytorch.priors.GammaPrior(1.5, 4.0) if priors else None, batch_shape=kb).double()
+    lk = cfg.get("lik", "gaussian")
+    if lk == "gaussian":
+        lik = gpytorch.likelihoods.GaussianLikelihood(
+            noise_prior=gpytorch.priors.GammaPrior(1.5, 4.0) if priors else None, batch_shape=kb).double()
+    else:
+        # heteroskedastic: fixed per-point noise of the *training set* (size n when the stored noise is used, n + 3 when
+        # the minibatch noise is supplied at call time), optionally plus a learned homoskedastic part
+        ntrain = n + 3 if cfg.get("noise_kw") else n
+        lik = gpytorch.likelihoods.FixedNoiseGaussianLikelihood(
+            noise=torch.tensor([rng.uniform(0.05, 0.6) for _ in range(ntrain)], dtype=torch.float64),
+            learn_additional_noise=(lk == "fixed+extra")).double()
     V.randomize_hypers(model, rng)
     with torch.no_grad():
-        lik.noise = torch.empty_like(lik.noise).uniform_(0.05, 0.6)
+        if lk == "gaussian":
+            lik.noise = torch.empty_like(lik.noise).uniform_(0.05, 0.6)
+        elif lk == "fixed+extra":
+            lik.second_noise = torch.tensor(rng.uniform(0.05, 0.4), dtype=torch.float64)
     model.variational_strategy.variational_params_initialized.fill_(1)
     V.randomize_dist(dist, rng)
     added_vals = []
@@ -186,22 +198,37 @@ def objective_configs(ctx):
                                     "pb": rng.choice([[], [], [2]]), "kernel": rng.choice(["rbf", "matern"])})
                         if out[-1]["pb"] and rng.random() < 0.6:
                             out[-1]["kb"] = out[-1]["pb"]     # batched hyper-parameters (each element its own priors)
+                        out[-1]["combine"] = k % 3 != 1       # combine_terms=False: the separately returned terms
+                        out[-1]["reassign"] = k % 4 == 2      # attributes changed after construction
+                        if k % 2 == 1 and not out[-1].get("kb"):
+                            # heteroskedastic likelihood; per-point noise stored or supplied at call time (minibatch)
+                            out[-1]["lik"] = ["fixed", "fixed+extra"][(k // 2) % 2]
+                            out[-1]["noise_kw"] = (k // 4) % 3 != 0
                         k += 1
+    # legal-but-unusual: beta = 0 (no KL regularisation) — the definition gives (1/B) sum E log p + (1/N) log prior
+    for strat in ("VariationalStrategy", "UnwhitenedVariationalStrategy"):
+        for obj in ("elbo", "pll"):
+            n = rng.randint(2, 4)
+            out.append({"strategy": strat, "objective": obj, "beta": 0.0, "priors": obj == "pll", "added": 0,
+                        "dist": dists[0], "M": rng.randint(2, 4), "n": n, "d": 1, "N": 3 * n, "pb": [], "kernel": "rbf",
+                        "combine": strat.startswith("V")})
     return out
 
 
-def py_spec(kind, ys, mus, vs, s, B, kl, N, beta, lps, losses):
-    """The property's definition evaluated directly (mpmath, 300 bits) — independent of the generated scaling."""
+def py_spec(kind, ys, mus, vs, ss, B, kl, N, beta, lps, losses):
+    """The property's definition evaluated directly (mpmath, 300 bits) — independent of the generated scaling.
+    Returns (value, (likelihood term, KL term, log-prior term, added-loss term))."""
     mp = V._mp()
-    sm = V.mpf(s)
     tot = mp.mpf(0)
-    for y, mu, v in zip(ys, mus, vs):
-        y, mu, v = V.mpf(y), V.mpf(mu), V.mpf(v)
+    for y, mu, v, s_ in zip(ys, mus, vs, ss):
+        y, mu, v, sm = V.mpf(y), V.mpf(mu), V.mpf(v), V.mpf(s_)
         if kind == "elbo":
             tot += -(((y - mu) ** 2 + v) / sm + mp.log(sm) + mp.log(2 * mp.pi)) / 2
         else:
             tot += -((y - mu) ** 2 / (v + sm) + mp.log(v + sm) + mp.log(2 * mp.pi)) / 2
-    return tot / B - V.mpf(V.F(beta)) / N * V.mpf(V.F(kl)) + sum(lps, mp.mpf(0)) / N - sum((V.mpf(V.F(a)) for a in losses), mp.mpf(0))
+    pieces = (tot / B, V.mpf(V.F(beta)) / N * V.mpf(V.F(kl)), sum(lps, mp.mpf(0)) / N,
+              sum((V.mpf(V.F(a)) for a in losses), mp.mpf(0)))
+    return pieces[0] - pieces[1] + pieces[2] - pieces[3], pieces
 
 
 def run_objective(ctx, d14, d15, cfg, rng, replay_only=None):
@@ -210,50 +237,89 @@ def run_objective(ctx, d14, d15, cfg, rng, replay_only=None):
     model, lik, dist, x, y, added_vals = build(cfg, rng)
     N, beta = cfg["N"], cfg["beta"]
     cls = gpytorch.mlls.VariationalELBO if cfg["objective"] == "elbo" else gpytorch.mlls.PredictiveLogLikelihood
-    mll = cls(lik, model, num_data=N, beta=beta)
+    combine = cfg.get("combine", True)
+    if cfg.get("reassign"):
+        # object built once, attributes changed afterwards: the values at call time count
+        mll = cls(lik, model, num_data=N + 5, beta=beta * 0.5 + 0.25, combine_terms=not combine)
+        mll.num_data, mll.beta, mll.combine_terms = N, beta, combine
+    else:
+        mll = cls(lik, model, num_data=N, beta=beta, combine_terms=combine)
+    n = x.shape[-2]
+    lk = cfg.get("lik", "gaussian")
+    kw = {}
+    noise_b = None
+    if lk != "gaussian":
+        if cfg.get("noise_kw"):
+            noise_b = torch.tensor([rng.uniform(0.05, 0.6) for _ in range(n)], dtype=torch.float64)
+            kw = {"noise": noise_b}
+        else:
+            noise_b = lik.noise_covar.noise.detach().clone()
     model.train()
     lik.train()
     with torch.no_grad():
-        val = mll(model(x), y).detach().clone()
-    n = x.shape[-2]
+        out = mll(model(x), y, **kw)
+    parts = None
+    if combine:
+        val = out.detach().clone()
+    else:
+        parts = [t.detach().clone() for t in out]
+        val = parts[0] - parts[1] + parts[2] - (parts[3] if len(parts) > 3 else 0.0)
+        if (len(parts) > 3) != bool(added_vals):
+            ctx.fail(f"{cls.__name__}:{cfg['strategy']}/uncombined.arity", f"{cfg}: {len(parts)} separately returned terms",
+                     {"cfg": cfg, "idx": None, "runner": "objective"})
     mp = V._mp()
     for idx in itertools.product(*[range(k) for k in val.shape]):
         if replay_only is not None and list(idx) != list(replay_only):
             continue
-        s = V.F(float(V.bget(lik.noise.detach().squeeze(-1), idx, 0)))
+        if lk == "gaussian":
+            ss = [V.F(float(V.bget(lik.noise.detach().squeeze(-1), idx, 0)))] * n
+        else:
+            extra = V.F(float(lik.second_noise)) if lk == "fixed+extra" else Fraction(0)
+            ss = [V.F(float(v)) + extra for v in noise_b.tolist()]
         lps = prior_logprobs(mll, idx)
-        desc = f"{cfg['objective']} {cfg['strategy']}/{cfg['dist']} beta={beta} N={N} B={n} priors={cfg['priors']} " \
-               f"added={cfg['added']} pb={cfg['pb']} kb={cfg.get('kb', [])} M={cfg['M']} d={cfg['d']} idx={list(idx)}"
+        desc = f"{cfg['objective']} {cfg['strategy']}/{cfg['dist']} lik={lk} noise_kw={bool(cfg.get('noise_kw'))} beta={beta} " \
+               f"N={N} B={n} priors={cfg['priors']} added={cfg['added']} combine_terms={combine} reassign={bool(cfg.get('reassign'))} " \
+               f"pb={cfg['pb']} kb={cfg.get('kb', [])} M={cfg['M']} d={cfg['d']} idx={list(idx)}"
         ex = exact_qf(ctx, d14, model, dist, x, idx, desc)
         if ex["kappa"] > V.COND_MAX:
             ctx.count("discarded_ill_conditioned")
             continue
-        logvs = [lfrac(mp.log(V.mpf(v + s))) for v in ex["var"]]
+        logvs = [lfrac(mp.log(V.mpf(v + s_))) for v, s_ in zip(ex["var"], ss)]
+        logss = [lfrac(mp.log(V.mpf(s_))) for s_ in ss]
         line = (f"E {cfg['objective']} {n} {V.toks(V.fcol(y))} {V.toks([[v] for v in ex['mean']])} "
-                f"{V.toks([[v] for v in ex['var']])} {C.rat_str(s)} {C.rat_str(lfrac(mp.log(V.mpf(s))))} "
+                f"{V.toks([[v] for v in ex['var']])} {V.toks([[v] for v in ss])} {V.toks([[v] for v in logss])} "
                 f"{C.rat_str(lfrac(mp.log(2 * mp.pi)))} {V.toks([[v] for v in logvs])} {n} {C.rat_str(V.F(ex['kl']))} "
                 f"{N} {C.rat_str(V.F(beta))} {len(lps)} {' '.join(C.rat_str(lfrac(v)) for v in lps)} "
                 f"{len(added_vals)} {' '.join(C.rat_str(V.F(v)) for v in added_vals)}").replace("  ", " ")
-        spec_py = py_spec(cfg["objective"], [V.F(float(v)) for v in y.tolist()], ex["mean"], ex["var"], s, n, ex["kl"], N, beta,
-                          lps, added_vals)
+        spec_py, pieces_py = py_spec(cfg["objective"], [V.F(float(v)) for v in y.tolist()], ex["mean"], ex["var"], ss, n,
+                                     ex["kl"], N, beta, lps, added_vals)
         if d15 is not None:
-            rep = d15.ask(line)
-            got, spec, _ = (V.sc(r) for r in rep)
+            rep = [V.sc(r_) for r_ in d15.ask(line)]
+            got, spec = rep[0], rep[1]
             if abs(float(got - spec)) > 1e-30:
                 ctx.broke("correspondence", "model-forward-vs-spec",
                           f"{desc}: generated forward {float(got)} vs definition {float(spec)}")
             if abs(float(V.mpf(spec) - spec_py)) > 1e-30 * max(1.0, abs(float(spec))):
                 ctx.broke("correspondence", "model-spec-vs-python-spec", f"{desc}: {float(spec)} vs {float(spec_py)}")
+            for nm, g, pz in zip(("log_likelihood", "kl_divergence", "log_prior", "added_loss"), rep[3:7], pieces_py):
+                if abs(float(V.mpf(g) - pz)) > 1e-30 * max(1.0, abs(float(pz))):
+                    ctx.broke("correspondence", f"model-term-vs-spec:{nm}", f"{desc}: generated {float(g)} vs definition {float(pz)}")
         else:
             spec = lfrac(spec_py)
         cmp_ = V.Cmp(ctx, f"{cls.__name__}:{cfg['strategy']}", desc,
                      {"cfg": cfg, "idx": list(idx), "runner": "objective"}, ex["kappa"], cfg["M"] + n)
         scale = max(1.0, abs(float(spec)), abs(ex["kl"]) * beta / N)
         cmp_.scalar("value", float(V.bget(val, idx, 0)), spec, scale=scale)
+        if parts is not None:
+            for nm, t, pz in zip(("log_likelihood", "kl_divergence", "log_prior", "added_loss"), parts, pieces_py):
+                cmp_.scalar(f"uncombined.{nm}", float(V.bget(t, idx, 0)), lfrac(pz), scale=scale)
         cmp_.flush()
         ctx.case(desc + f" seed={C.seed()}", sample={"case": desc, "value": float(spec), "rel_err": cmp_.worst})
         ctx.count(f"objective:{cfg['objective']}")
         ctx.count(f"strategy:{cfg['strategy']}")
+        ctx.count(f"lik:{lk}{'+kw' if cfg.get('noise_kw') else ''}")
+        if not combine:
+            ctx.count("combine_terms=False")
         _state["worst"] = max(_state.get("worst", 0.0), cmp_.worst)
 
 
@@ -266,7 +332,8 @@ def bound_configs(ctx):
         out.append({"strategy": ["VariationalStrategy", "UnwhitenedVariationalStrategy"][k % 2],
                     "dist": "CholeskyVariationalDistribution", "M": rng.randint(2, 5 if ctx.quick else 8),
                     "n": rng.randint(2, 6 if ctx.quick else 8), "d": rng.choice([1, 2]),
-                    "kernel": rng.choice(["rbf", "matern"]), "z_subset_of_x": k % 3 == 2})
+                    "kernel": rng.choice(["rbf", "matern"]), "z_subset_of_x": k % 3 == 2,
+                    "ngd_history": NGD_HISTORIES[k % 4]})
     return out
 
 
@@ -405,7 +472,8 @@ def run_ngd(ctx, d14, d15, cfg, rng, model0, lik, x, y, exact, collapsed, scale,
     model.train()
     lik.train()
     mll = gpytorch.mlls.VariationalELBO(lik, model, num_data=N)
-    opt = gpytorch.optim.NGD(model.variational_parameters(), num_data=N, lr=1.0)
+    opt = make_ngd(model.variational_parameters(), N, cfg.get("ngd_history"))
+    desc0 = desc0 + f" ngd_history={cfg.get('ngd_history')}"
     e1_0 = V.fcol(ndist.natural_vec.detach())
     e2_0 = V.fmat(ndist.natural_mat.detach())
     opt.zero_grad()
@@ -450,6 +518,41 @@ def run_ngd(ctx, d14, d15, cfg, rng, model0, lik, x, y, exact, collapsed, scale,
                  f"(diff {after - collapsed:.3e}, tol {toln:.1e})", replay)
 
 
+def make_ngd(params, N, hist):
+    """NGD optimiser whose *effective* step size is one at the time of the step.  Histories: built directly with lr=1;
+    built with lr=0.1 and raised to 1 afterwards (direct assignment / lr scheduler); built with another num_data that is
+    corrected afterwards.  (Objects built once and used after an attribute changed.)"""
+    import torch
+    import warnings
+    import gpytorch
+    if hist in (None, "direct"):
+        return gpytorch.optim.NGD(params, num_data=N, lr=1.0)
+    if hist == "lr-assigned":
+        opt = gpytorch.optim.NGD(params, num_data=N, lr=0.1)
+        for g in opt.param_groups:
+            g["lr"] = 1.0
+        return opt
+    if hist == "lr-scheduler":
+        opt = gpytorch.optim.NGD(params, num_data=N, lr=0.1)
+        sched = torch.optim.lr_scheduler.LambdaLR(opt, lambda epoch: 10.0 ** min(epoch, 1))
+        with warnings.catch_warnings():
+            warnings.simplefilter("ignore")
+            sched.step()
+        if abs(opt.param_groups[0]["lr"] - 1.0) > 1e-15:
+            raise RuntimeError(f"scheduler did not produce lr = 1: {opt.param_groups[0]['lr']}")
+        for g in opt.param_groups:
+            g["lr"] = 1.0          # (0.1 * 10.0 is 1.0000000000000002 in floating point)
+        return opt
+    if hist == "num_data-assigned":
+        opt = gpytorch.optim.NGD(params, num_data=N + 7, lr=1.0)
+        opt.num_data = N
+        return opt
+    raise RuntimeError(hist)
+
+
+NGD_HISTORIES = ["direct", "lr-assigned", "lr-scheduler", "num_data-assigned"]
+
+
 def tri_inv(T):
     """Exact inverse of a lower-triangular Fraction matrix."""
     k = len(T)
@@ -474,7 +577,8 @@ def batched_configs(ctx):
         out.append({"strategy": ["VariationalStrategy", "UnwhitenedVariationalStrategy"][(k // 2) % 2 if k >= 4 else 0],
                     "dist": ["NaturalVariationalDistribution", "TrilNaturalVariationalDistribution"][k % 2],
                     "pb": [[2], [3]][(k // 2) % 2], "z_batched": k % 3 == 0, "M": rng.randint(2, 4 if ctx.quick else 6),
-                    "n": rng.randint(2, 5 if ctx.quick else 8), "d": rng.choice([1, 2]), "kernel": rng.choice(["rbf", "matern"])})
+                    "n": rng.randint(2, 5 if ctx.quick else 8), "d": rng.choice([1, 2]), "kernel": rng.choice(["rbf", "matern"]),
+                    "ngd_history": NGD_HISTORIES[(k + 1) % 4]})
     return out
 
 
@@ -516,7 +620,7 @@ def run_bound_batched(ctx, d14, d15, cfg, rng, replay_only=None):
     lik.train()
     N = n
     mll = gpytorch.mlls.VariationalELBO(lik, model, num_data=N)
-    opt = gpytorch.optim.NGD(model.variational_parameters(), num_data=N, lr=1.0)
+    opt = make_ngd(model.variational_parameters(), N, cfg.get("ngd_history"))
     mat_param = dist.natural_mat if natural else dist.natural_tril_mat
     e1_all, e2_all = dist.natural_vec.detach().clone(), mat_param.detach().clone()
     opt.zero_grad()
@@ -543,7 +647,7 @@ def run_bound_batched(ctx, d14, d15, cfg, rng, replay_only=None):
             continue
         idx = (b,)
         desc = f"batched {cfg['strategy']}/{cfg['dist']} pb={pb} z_batched={bool(cfg.get('z_batched'))} M={M} n={n} d={d} " \
-               f"kernel={cfg['kernel']} element={b}"
+               f"kernel={cfg['kernel']} ngd_history={cfg.get('ngd_history')} element={b}"
         replay = {"cfg": cfg, "runner": "bound_batched", "idx": [b]}
         kzz, kzx, kxx = (V.fmat(V.bget(t, idx, 2)) for t in (Kzz, Kzx, Kxx))
         kzz, kxx = V.sym_lower(kzz), V.sym_lower(kxx)
@@ -553,9 +657,12 @@ def run_bound_batched(ctx, d14, d15, cfg, rng, replay_only=None):
             ctx.count("discarded_ill_conditioned")
             continue
         r = [[V.F(float(y[i])) - mx[i][0]] for i in range(n)]
-        qA, detA, trD, qC, detC = (V.sc(t) for t in d15.ask(
-            f"C {M} {n} {V.toks(kzz)} {V.toks(kzx)} {V.toks(kxx)} {V.toks(r)} {C.rat_str(eps)} {C.rat_str(epsx)} {C.rat_str(s)}"))
-        collapsed = float(-(V.mpf(qA) + V.log_frac(detA) + n * mp.log(2 * mp.pi)) / 2 - V.mpf(trD) / (2 * V.mpf(s)))
+        if d15 is not None:
+            qA, detA, trD, qC, detC = (V.sc(t) for t in d15.ask(
+                f"C {M} {n} {V.toks(kzz)} {V.toks(kzx)} {V.toks(kxx)} {V.toks(r)} {C.rat_str(eps)} {C.rat_str(epsx)} {C.rat_str(s)}"))
+            collapsed = float(-(V.mpf(qA) + V.log_frac(detA) + n * mp.log(2 * mp.pi)) / 2 - V.mpf(trD) / (2 * V.mpf(s)))
+        else:       # no C15 driver: Python/mpmath oracle
+            collapsed = py_collapsed(kzz, kzx, kxx, r, eps, epsx, s)
         scale = max(1.0, abs(collapsed))
         key = f"batched:{cfg['strategy']}:{cfg['dist'].replace('VariationalDistribution', '')}"
         ctx.case(desc + f" seed={C.seed()}", sample={"case": desc, "N_elbo": float(val0[b]), "collapsed": collapsed})
@@ -574,7 +681,7 @@ def run_bound_batched(ctx, d14, d15, cfg, rng, replay_only=None):
             Tl = [[Pm[i][j] if j <= i else Fraction(0) for j in range(M)] for i in range(M)]
             TtT = V.mmul(V.mT(Tl), Tl)
             e2 = [[-v / 2 for v in row] for row in TtT]
-        if whitened:
+        if whitened and d15 is not None:
             mg1, mg2 = d15.ask(f"G {M} {n} {V.toks(L)} {V.toks(kzx)} {V.toks(r)} {C.rat_str(s)} {N} {V.toks(e1)} {V.toks(e2)}")
             if natural:
                 exp2 = mg2
@@ -597,7 +704,7 @@ def run_bound_batched(ctx, d14, d15, cfg, rng, replay_only=None):
                          dict(replay, what="ngd"))
                 continue
             # parameters after the step vs eta*
-            if whitened:
+            if whitened and d15 is not None:
                 o1, o2 = d15.ask(f"OPT {M} {n} {V.toks(L)} {V.toks(kzx)} {V.toks(r)} {C.rat_str(s)}")[:2]
                 perr = max(max(abs(float(a[0]) - g) for a, g in zip(o1, dist.natural_vec.detach()[b].tolist())),
                            max(abs(float(a) - g) for ra, rg in zip(o2, dist.natural_mat.detach()[b].tolist()) for a, g in zip(ra, rg)))
@@ -614,21 +721,137 @@ def run_bound_batched(ctx, d14, d15, cfg, rng, replay_only=None):
                          f"(diff {float(after[b]) - collapsed:.3e}, tol {toln:.1e})", dict(replay, what="ngd"))
 
 
+def py_collapsed(kzz, kzx, kxx, r, eps, epsx, s):
+    """Collapsed (Titsias) bound by mpmath at 300 bits — the spec oracle used when the C15 driver cannot run."""
+    mp = V._mp()
+    M, n = len(kzz), len(kxx)
+    Kt = mp.matrix([[V.mpf(v) for v in row] for row in V.add_jit(kzz, eps)])
+    Kzx = mp.matrix([[V.mpf(v) for v in row] for row in kzx])
+    Kxx = mp.matrix([[V.mpf(v) for v in row] for row in V.add_jit(kxx, epsx)])
+    rv = mp.matrix([[V.mpf(v[0])] for v in r])
+    Q = Kzx.T * (mp.inverse(Kt) * Kzx)
+    A = Q + V.mpf(s) * mp.eye(n)
+    quad = (rv.T * (mp.inverse(A) * rv))[0, 0]
+    tr = sum(Kxx[i, i] - Q[i, i] for i in range(n))
+    return float(-(quad + mp.log(mp.det(A)) + n * mp.log(2 * mp.pi)) / 2 - tr / (2 * V.mpf(s)))
+
+
+def run_bound_py(ctx, d14, cfg, rng):
+    """Bound and one-NGD-step checks against the Python/mpmath oracle only (no C15 driver): used by `search`."""
+    import torch
+    import gpytorch
+    model, lik, dist, x, y, _ = build(cfg, rng)
+    model.train()
+    lik.train()
+    M, n = cfg["M"], cfg["n"]
+    s = V.F(float(lik.noise.reshape(-1)[0]))
+    desc0 = f"bound[py-oracle] {cfg['strategy']} M={M} n={n} d={cfg['d']} kernel={cfg['kernel']} ngd_history={cfg.get('ngd_history')}"
+    ex = exact_qf(ctx, d14, model, dist, x, (), desc0)
+    kzz, kzx, kxx, mx, mz = ex["blocks"]
+    if ex["kappa"] > 1e6:
+        return
+    r = [[V.F(float(y[i])) - mx[i][0]] for i in range(n)]
+    collapsed = py_collapsed(kzz, kzx, V.sym_lower(kxx), r, ex["eps"], ex["epsx"], s)
+    scale = max(1.0, abs(collapsed))
+    key = f"bound:{cfg['strategy']}"
+    replay = {"cfg": cfg, "runner": "bound_py"}
+    for j in range(3):
+        V.randomize_dist(dist, rng)
+        v = n_elbo(model, lik, x, y, n)
+        ctx.case(f"{desc0} random-q#{j} seed={C.seed()}")
+        if v > collapsed + 1e-9 * scale * max(1.0, ex["kappa"] * 1e-4):
+            ctx.fail(f"{key}/elbo-exceeds-collapsed-bound", f"{desc0}: N*ELBO = {v!r} > collapsed bound {collapsed!r}", replay)
+    Vv = gpytorch.variational
+    ndist = Vv.NaturalVariationalDistribution(M)
+    vs0 = model.variational_strategy
+
+    class GP(gpytorch.models.ApproximateGP):
+        def __init__(self):
+            super().__init__(type(vs0)(self, vs0.inducing_points.detach().clone(), ndist, learn_inducing_locations=True))
+            self.mean_module = model.mean_module
+            self.covar_module = model.covar_module
+
+        def forward(self, x):
+            return gpytorch.distributions.MultivariateNormal(self.mean_module(x), self.covar_module(x))
+
+    m2 = GP().double()
+    m2.variational_strategy.variational_params_initialized.fill_(1)
+    V.randomize_dist(ndist, rng)
+    m2.train()
+    mll = gpytorch.mlls.VariationalELBO(lik, m2, num_data=n)
+    opt = make_ngd(m2.variational_parameters(), n, cfg.get("ngd_history"))
+    opt.zero_grad()
+    (-mll(m2(x), y)).backward()
+    opt.step()
+    with torch.no_grad():
+        after = float(mll(m2(x), y)) * n
+    ctx.case(f"{desc0} ngd seed={C.seed()}")
+    if abs(after - collapsed) > 1e-7 * scale * max(1.0, ex["kappa"] * 1e-3):
+        ctx.fail(f"ngd:{cfg['strategy']}/one-step-not-optimal",
+                 f"{desc0}: after one NGD step of size one N*ELBO = {after!r}, collapsed bound = {collapsed!r}", replay)
+
+
 # ------------------------------------------------------------------ entry points
 
 def guarded(ctx, runner, cfg, thunk):
+    """One configuration.  An exception of the *real code* on a valid configuration is a failure of the property; a dead
+    driver propagates (the caller switches to the specification oracle); any other harness problem is recorded as a
+    broken correspondence for this configuration and the run continues — nothing aborts the remaining cases."""
     import traceback
     try:
         thunk()
-    except V.DriverFail as e:
+    except V.DriverFail:
         ctx.count("discarded_driver_fail")
+    except V.DriverDead:
+        raise
     except Exception as e:
         tb = traceback.format_exc()
         if "/gpytorch/" in tb or "/linear_operator/" in tb or "torch" in type(e).__module__:
-            ctx.fail(f"{runner}:{cfg.get('strategy')}/raises", f"{runner} {cfg}: real code raised {type(e).__name__}: {str(e)[:200]}",
+            key = f"{runner}:beta=0/raises" if cfg.get("beta") == 0 else f"{runner}:{cfg.get('strategy')}/raises"
+            ctx.fail(key, f"{runner} {cfg}: real code raised {type(e).__name__}: {str(e)[:200]}",
                      {"cfg": cfg, "runner": runner})
         else:
-            raise
+            ctx.count("harness_errors")
+            if ctx.counters.get("harness_errors", 0) <= 3:
+                ctx.broke("correspondence", f"harness-error:{runner}", tb[-1500:])
+
+
+def open_d15(ctx):
+    """The C15 driver (generated scaling + ELBO model); None when it cannot run — then every case is still judged,
+    against the Python/mpmath specification oracle."""
+    try:
+        d = V.Driver("C15")
+        d.ask("S 1 1 1 1 1 1 1 1 1 1")
+        return d
+    except V.DriverDead as e:
+        ctx.broke("correspondence", "driver-C15-does-not-run", str(e)[-800:])
+        return None
+
+
+def run_all(ctx, d14, d15):
+    st = {"d15": d15}
+
+    def go(runner, cfg, fn):
+        try:
+            guarded(ctx, runner, cfg, lambda: fn(st["d15"]))
+        except V.DriverDead as e:       # died in the middle of the run: finish with the specification oracle
+            if st["d15"] is not None:
+                ctx.broke("correspondence", "driver-C15-died", str(e)[-800:])
+                st["d15"] = None
+                guarded(ctx, runner, cfg, lambda: fn(None))
+            else:
+                raise
+    for i, cfg in enumerate(objective_configs(ctx)):
+        cfg["rng_label"] = f"objective:{i}"
+        go("objective", cfg, lambda d, c=cfg: run_objective(ctx, d14, d, c, ctx.rng(c["rng_label"])))
+    for i, cfg in enumerate(bound_configs(ctx)):
+        cfg["rng_label"] = f"bound:{i}"
+        go("bound", cfg, lambda d, c=cfg: (run_bound(ctx, d14, d, c, ctx.rng(c["rng_label"])) if d is not None
+                                           else run_bound_py(ctx, d14, c, ctx.rng(c["rng_label"]))))
+    for i, cfg in enumerate(batched_configs(ctx)):
+        cfg["rng_label"] = f"batched:{i}"
+        go("bound_batched", cfg, lambda d, c=cfg: run_bound_batched(ctx, d14, d, c, ctx.rng(c["rng_label"])))
+    return st["d15"]
 
 
 def correspondence(ctx):
@@ -637,30 +860,23 @@ def correspondence(ctx):
     torch.set_num_threads(2)
     warnings.simplefilter("ignore")
     d14 = V.open_driver(ctx)
-    d15 = V.Driver("C15")
+    d15 = open_d15(ctx)
     try:
-        for i, cfg in enumerate(objective_configs(ctx)):
-            cfg["rng_label"] = f"objective:{i}"
-            guarded(ctx, "objective", cfg, lambda c=cfg: run_objective(ctx, d14, d15, c, ctx.rng(c["rng_label"])))
-        for i, cfg in enumerate(bound_configs(ctx)):
-            cfg["rng_label"] = f"bound:{i}"
-            guarded(ctx, "bound", cfg, lambda c=cfg: run_bound(ctx, d14, d15, c, ctx.rng(c["rng_label"])))
-        for i, cfg in enumerate(batched_configs(ctx)):
-            cfg["rng_label"] = f"batched:{i}"
-            guarded(ctx, "bound_batched", cfg, lambda c=cfg: run_bound_batched(ctx, d14, d15, c, ctx.rng(c["rng_label"])))
+        d15 = run_all(ctx, d14, d15)
     finally:
         d14.close()
-        d15.close()
+        if d15 is not None:
+            d15.close()
     for k in ("worst", "worst_opt", "worst_ngd", "worst_grad", "min_gap", "worst_grad_batched", "worst_ngd_batched"):
         if k in _state:
             ctx.notes[f"c15_{k}"] = _state[k]
-    ctx.notes["driver_requests"] = d14.n + d15.n
+    ctx.notes["driver_requests"] = d14.n + (d15.n if d15 is not None else 0)
 
 
 def search(ctx, broken):
-    """Proof / translator / model tie broke: the oracle of part B (exact dense log marginal, collapsed bound computed by
-    mpmath from exact determinants) does not depend on the generated scaling; part A's expected value is recomputed in
-    Python from the property's definition.  Both already ran inside `correspondence` unless the driver did not build."""
+    """Proof / translator / driver broke and the regular run produced no failing input: re-run every generator against
+    the specification oracles only (Python/mpmath definition of the objective, mpmath collapsed bound) — independent of
+    the generated scaling and of the C15 driver."""
     if ctx.failures:
         return
     import torch
@@ -669,9 +885,7 @@ def search(ctx, broken):
     warnings.simplefilter("ignore")
     d14 = V.open_driver(ctx)
     try:
-        for i, cfg in enumerate(objective_configs(ctx)):
-            cfg["rng_label"] = f"objective:{i}"
-            guarded(ctx, "objective", cfg, lambda c=cfg: run_objective(ctx, d14, None, c, ctx.rng(c["rng_label"])))
+        run_all(ctx, d14, None)
     finally:
         d14.close()
 
@@ -684,17 +898,20 @@ def replay(ctx, payload):
     case = payload["case"]
     os.environ["VERIF_SEED"] = str(payload.get("seed", 0))
     d14 = V.open_driver(ctx)
-    d15 = V.Driver("C15")
+    d15 = open_d15(ctx)
     try:
         cfg = case["cfg"]
         rng = ctx.rng(cfg.get("rng_label", ""))
         if case.get("runner") == "objective":
             run_objective(ctx, d14, d15, cfg, rng, replay_only=case.get("idx"))
+        elif case.get("runner") == "bound_py" or (d15 is None and case.get("runner") == "bound"):
+            run_bound_py(ctx, d14, cfg, rng)
         elif case.get("runner") == "bound_batched":
             run_bound_batched(ctx, d14, d15, cfg, rng, replay_only=case.get("idx"))
         else:
             run_bound(ctx, d14, d15, cfg, rng)
     finally:
         d14.close()
-        d15.close()
+        if d15 is not None:
+            d15.close()
     return not ctx.failures
